@@ -353,7 +353,8 @@ def gen_projection(rng, docs):
         k = gen.path(rng, base)
         r = rng.random()
         if r < 0.12:
-            p[k.split('.')[0]] = {'$slice': rng.choice([0, 1, 2, -1, -2, 5, [0, 1], [1, 2], [-2, 1], [1]])}
+            p[k.split('.')[0]] = {'$slice': rng.choice([0, 1, 2, -1, -2, 5, [0, 1], [1, 2], [-2, 1], [1], [-1, 1],
+                                                       [-2, 2], [-1, 3], [-3, 2], [2, 5], [0, 0]])}
         elif r < 0.2:
             p[k.split('.')[0]] = {'$elemMatch': gen.elem_query(rng, base, 0, False)}
         else:
